@@ -1008,10 +1008,30 @@ fn conc_hammer(cfg: &Value, out: &Emit) {
     let sized = Arc::new(SizedMemoryPool::new());
     // content types used on the sized pool: one per size class so that the class of a request names its type
     const HT: [(usize, &str, usize); 2] = [(0, "config", 100), (5, "download", 20000)];
+    // sequential prefix (thread 0): `pre` buffers per class returned to the pool; with cfg.lock the rounds run in lock step
+    let pre = cfg.get("pre").map(u).unwrap_or(0);
+    let lock = cfg.get("lock").and_then(Value::as_bool).unwrap_or(false);
+    let mut all: Vec<Value> = Vec::new();
+    {
+        let r0 = rt();
+        for c in 0..2usize {
+            for _ in 0..pre {
+                let b = BytesMut::with_capacity(NgdpSizeClass::from_size(HT[c].2).buffer_size());
+                let cap = b.capacity();
+                if target == "ngdp" {
+                    ngdp.deallocate(b);
+                } else {
+                    r0.block_on(sized.deallocate(b)).expect("driver: deallocate");
+                }
+                all.push(json!([0, 1, c + 1, cap, 0, 0, 0]));
+            }
+        }
+    }
     let bar = Arc::new(Barrier::new(threads));
+    let arrived = Arc::new(AtomicU64::new(0));
     let mut hs = Vec::new();
     for t in 1..=threads {
-        let (ngdp, sized, bar, target) = (ngdp.clone(), sized.clone(), bar.clone(), target.clone());
+        let (ngdp, sized, bar, target, arrived) = (ngdp.clone(), sized.clone(), bar.clone(), target.clone(), arrived.clone());
         hs.push(std::thread::spawn(move || {
             let mut rng = Rng::new(seed.wrapping_mul(7_000_003).wrapping_add(t as u64));
             let mut held: Vec<(BytesMut, usize)> = Vec::new();
@@ -1020,7 +1040,17 @@ fn conc_hammer(cfg: &Value, out: &Emit) {
             let mut ops: Vec<Value> = Vec::new();
             let lrt = rt();
             bar.wait();
-            for _ in 0..per {
+            for i in 0..per {
+                if lock {
+                    arrived.fetch_add(1, Ordering::SeqCst);
+                    let t_spin = std::time::Instant::now();
+                    while arrived.load(Ordering::SeqCst) < (threads * (i + 1)) as u64 && t_spin.elapsed() < Duration::from_millis(200) {
+                        std::hint::spin_loop();
+                    }
+                    for _ in 0..rng.below(40) {
+                        std::hint::spin_loop();
+                    }
+                }
                 if rng.below(8) == 0 {
                     jitter(&mut rng);
                 }
@@ -1059,7 +1089,6 @@ fn conc_hammer(cfg: &Value, out: &Emit) {
             ops
         }));
     }
-    let mut all: Vec<Value> = Vec::new();
     for h in hs {
         all.extend(h.join().expect("driver: hammer thread"));
     }
